@@ -84,6 +84,8 @@ func VerifC07_RoundTrip() {
 	for _, n := range out {
 		if !n.dir {
 			verif.Assert("mtime_preserved_for_files", n.mtime.Equal(stamp))
+		} else {
+			verif.Assert("mtime_preserved_for_directories", n.mtime.Equal(stamp))
 		}
 	}
 	verif.Assert("handles_balanced", rec.opens == rec.closes)
